@@ -17,6 +17,8 @@ import os
 import random
 import re
 import subprocess
+import threading
+import time
 
 from vlib import core
 
@@ -25,6 +27,7 @@ MODES = [("dyn", "probe/start"), ("static", "probe/start-static"), ("spie", "pro
          ("dyn-noaux", "probe/start-noaux")]
 KEYS = [[], [65], [65, 66], [65, 66, 67], [65, 66, 67, 68], [66], [67]]
 LAUNCH = os.path.join(core.VERIF, "tools", "bin", "launch")
+_LOCK = threading.Lock()
 BATCH = 1500
 PAR = 4
 
@@ -236,6 +239,22 @@ def run_binary(chk, mode, build, binary, cases, tag, stack_every=0):
     return recs, raws
 
 
+def ids_usable(chk, binary):
+    """can a process running under other ids exec the probe (work tree world-searchable)? If not, all runs keep
+    the caller's ids (then a uid/gid mix-up is only visible when they differ)."""
+    if os.geteuid() != 0:
+        return False
+    cf = os.path.join(chk.work, "ids_test.txt")
+    of = os.path.join(chk.work, "ids_test.ndjson")
+    write_cases(cf, binary, [{"argv": [[97]], "env": [], "keys": [], "ids": (1001, 2001)}])
+    p = subprocess.run([LAUNCH, cf, of, "5000"], stdout=subprocess.PIPE, stderr=subprocess.PIPE, timeout=60)
+    try:
+        r = json.loads(open(of).readline())
+    except (OSError, ValueError):
+        return False
+    return p.returncode == 0 and r.get("status") == "exit" and r.get("code") == 0
+
+
 def judge(chk, recs, tag, harness_fatal=True):
     """-> dict index -> {"c": [clauses], "keys": [1-based look indices]}"""
     jobs = []
@@ -258,7 +277,8 @@ def judge(chk, recs, tag, harness_fatal=True):
     bad = {}
     with concurrent.futures.ThreadPoolExecutor(max_workers=PAR) as ex:
         for k, res, b in ex.map(one, jobs):
-            chk.add_tlc(res)
+            with _LOCK:
+                chk.add_tlc(res)
             for e in b:
                 bad[k + e["i"] - 1] = e
     return bad
@@ -515,14 +535,28 @@ def run(tier):
     if quick:
         big = rng.sample(big, 300)
     envs = [{"env": e, "look": None} for e in EXTRA_ENVS] + small + big
+    many_env = [list(b"K%02d=v%d" % (i, i)) for i in range(50)] + [list(b"K07=again"), list(b"K4=short"), list(b"novalue")]
+    extra_cases = [
+        # many arguments / many entries; keys: first, last, middle, absent, a key that is a proper prefix of ten names,
+        # a duplicated name (first one must answer), an entry without '='
+        {"argv": [list(b"arg%d" % i) for i in range(40)], "env": many_env,
+         "keys": [list(b"K00"), list(b"K49"), list(b"K25"), list(b"K50"), list(b"K4"), list(b"K07"), list(b"K"), list(b"novalue")]},
+        # non-UTF-8 name and key (var_unix only), non-UTF-8 value
+        {"argv": [[255, 254], [97]], "env": [[255, 61, 120], [65, 61, 255], [255, 255, 61, 121]], "keys": [[255], [65], [255, 255], [255, 255, 255]]},
+        # 200-byte key and name
+        {"argv": [[97]], "env": [[76] * 199 + [61, 49], [76] * 200 + [61, 50], [76] * 201 + [61, 51]], "keys": [[76] * 200, [76] * 198, [76] * 202]},
+    ]
     # leads from the model first (the model-level work ran next to builds and generation)
     leads = model_future.result()
     bg.shutdown()
     lead_cases = [{"argv": [[97]], "env": e, "keys": [k]} for e, k in leads]
+    use_ids = ids_usable(chk, bins[("dyn", "debug")])
+    chk.extra["runs_under_other_ids"] = use_ids
     # every third run under other real ids than root's 0/0 (a uid/gid mix-up is invisible for 0/0)
     cases = lead_cases + [{"argv": argvs[i % len(argvs)], "env": v["env"], "keys": KEYS,
-                           "ids": (1000 + i % 7, 2000 + i % 5) if (i % 3 == 0 and os.geteuid() == 0) else None}
+                           "ids": (1000 + i % 7, 2000 + i % 5) if (i % 3 == 0 and use_ids) else None}
                           for i, v in enumerate(envs)]
+    cases += [dict(c, ids=None) for c in extra_cases]
     # every argument vector at least once even if there are few env blocks
     for i in range(len(envs), len(argvs)):
         cases.append({"argv": argvs[i], "env": [], "keys": KEYS[:2]})
@@ -531,17 +565,21 @@ def run(tier):
         (mode, build), binary = item
         return (mode, build), run_binary(chk, mode, build, binary, cases, tier, stack_every=10 if quick else 25)
 
+    core.log("C07: %d cases per binary, %d binaries (t=%.0fs)" % (len(cases), len(bins), time.time() - chk.t0))
     results = {}
     with concurrent.futures.ThreadPoolExecutor(max_workers=8) as ex:
         for key, val in ex.map(work, sorted(bins.items())):
             results[key] = val
 
+    core.log("C07: execs done (t=%.0fs)" % (time.time() - chk.t0))
     nontrivial = set()
     lookups = 0
     stacks = 0
     canary_recs = []
+    with concurrent.futures.ThreadPoolExecutor(max_workers=4 if quick else 2) as ex:   # <= 8 single-worker judges in flight
+        verdicts = dict(zip(sorted(results), ex.map(lambda k: judge(chk, results[k][0], "%s_%s" % k), sorted(results))))
     for (mode, build), (recs, raws) in sorted(results.items()):
-        bad = judge(chk, recs, "%s_%s" % (mode, build))
+        bad = verdicts[(mode, build)]
         canary_recs += make_canaries(recs, bad)
         chk.evaluations += len(recs)
         chk.traces += len(recs) - len(bad)
@@ -559,6 +597,7 @@ def run(tier):
             r = recs[len(recs) // 3]
             chk.sample({"mode": mode, "build": build, "argv": [show(a) for a in r["argv"]], "env": [show(e) for e in r["env"]],
                         "look": [[show(l["key"]), fmt_res(l["varu"])] for l in r["look"]], "mono": r["mono"]})
+    core.log("C07: judged (t=%.0fs)" % (time.time() - chk.t0))
     chk.nontrivial = len(nontrivial)
     chk.exhaustive = not quick
     vd = {"%s/%s" % k: vdso_used(b) for k, b in sorted(bins.items()) if k[0] != "dyn-noaux"}
